@@ -11,7 +11,8 @@ correspondence check, not by the theorems.  Core Lean only.
 
 The model is of the REPAIRED code (fixes/C15-sniffunit-mus.patch, /repo commit 8458820: `sniffUnit`
 tries the exact lower-cased alias before stripping a plural "s"; fixes/C15-autoscale-minint64.patch,
-/repo commit 76c348f: `autoScale` compares the magnitude `|value|`).  `strings.ToLower` is modelled as ASCII lower-casing: the
+/repo commit 76c348f: `autoScale` compares the magnitude `|value|`;
+fixes/C15-canonical-name-is-a-unit-name.patch: `sniffUnit` first matches the canonical name exactly).  `strings.ToLower` is modelled as ASCII lower-casing: the
 model is only asked about strings on which the two agree (checked by the harness).
 -/
 namespace PV.Measure
@@ -88,12 +89,20 @@ def isAuto (s : Str) : Bool := s == sMinimum || s == sAuto
 def findByAlias (F : Family) (a : Str) : Option MUnit :=
   F.units.find? fun u => u.aliases.contains a
 
-/-- `UnitType.sniffUnit` (repaired: exact lower-cased alias first, then without a plural "s") -/
+/-- the strings that can lead `sniffUnit` to a unit, lower-cased: its canonical (printed) name and
+its aliases -/
+def unitNames (u : MUnit) : List Str := asciiLower u.name :: u.aliases
+
+/-- `UnitType.sniffUnit` (repaired: the canonical name exactly as printed — what a report hands
+back as its target unit — then the exact lower-cased alias, then without a plural "s") -/
 def sniffUnit (F : Family) (s : Str) : Option MUnit :=
-  let l := asciiLower s
-  match findByAlias F l with
+  match F.units.find? fun u => u.name == s with
   | some u => some u
-  | none => if 2 < l.length then findByAlias F (trimS l) else none
+  | none =>
+    let l := asciiLower s
+    match findByAlias F l with
+    | some u => some u
+    | none => if 2 < l.length then findByAlias F (trimS l) else none
 
 /-! ## conversion -/
 
@@ -168,6 +177,32 @@ FIRST (`if r > 0 && r != 1`), the result is labelled — so an automatic unit is
 value that is actually printed -/
 def formatValue (T : Table) (r : Q) (v : Int) (frm to : Str) : Q × Str :=
   label T (if Q.ltB Q.zero r && !decide (Q.eqv r Q.one) then scaleByRatio v r else v) frm to
+
+/-- the loop of `Report.selectOutputUnit`: the smallest non-zero magnitude among the nodes, a node
+counting with `|flat|`, or with `|cum|` when its flat value is 0; 0 when there is none -/
+def minStep (m : Nat) (n : Int × Int) : Nat :=
+  let nm := if n.1.natAbs = 0 then n.2.natAbs else n.1.natAbs
+  if 0 < nm ∧ (m = 0 ∨ nm < m) then nm else m
+
+def minMagnitude (nodes : List (Int × Int)) : Nat := nodes.foldl minStep 0
+
+/-- `Report.selectOutputUnit` for `OutputUnit == "minimum"` and a non-empty graph: ONE unit for the
+whole report, taken from the smallest non-zero magnitude (scaled up by 100 when that differs from
+the unit of the total by more than that, except for callgrind), the sample unit when the
+automatic choice is empty.  `nodes` are the (flat, cum) values of the graph's nodes, `total` the
+report's total (Σ|v|), `r` the `-divide_by` ratio. -/
+def selectOutputUnit (T : Table) (nodes : List (Int × Int)) (total : Int) (r : Q) (sampleUnit : Str)
+    (callgrind : Bool) : Str :=
+  let min0 : Int := minMagnitude nodes
+  let min1 := if min0 = 0 then total else min0
+  let active := Q.ltB Q.zero r && !decide (Q.eqv r Q.one)
+  let mn := if active then scaleByRatio min1 r else min1
+  let mx := if active then scaleByRatio total r else total
+  let minUnit := (scale T mn sampleUnit sMinimum).2
+  let maxUnit := (scale T mx sampleUnit sMinimum).2
+  let unit := if minUnit ≠ maxUnit ∧ mn * 100 < mx ∧ callgrind = false
+    then (scale T (100 * mn) sampleUnit sMinimum).2 else minUnit
+  if unit ≠ [] then unit else sampleUnit
 
 inductive PctClass where
   | hundred  -- "  100%"
